@@ -210,7 +210,7 @@ MUTANTS = [
     ('C15', 'exception-handler-unlatched', (R, HTTP, "        if req.handled:\n            # the request has been answered with an error already\n            return\n        req.handled = True\n", ""), 'C15.f'),
     ('C15', 'success-errors-unlatched', (R, HTTP, "                if req.handled:\n                    # answered with an error already (see _on_exception)\n                    return\n                req.handled = True\n", ""), 'C15.f'),
     ('C14', 'entry-stored-before-version-check', (R, HTTP, "            rp = req.protocol\n            sp = self.protocol\n", "            self._clients[sock] = (req, res)\n            rp = req.protocol\n            sp = self.protocol\n"), 'C14.h'),
-    ('C14', '505-keeps-parser', (R, HTTP, "                del self._buffers[sock]\n                return self.fire(httperror(req, res, 505))", "                return self.fire(httperror(req, res, 505))"), 'C14.h'),
+    ('C14', '505-keeps-parser', (R, HTTP, "                del self._buffers[sock]\n                # (answer in the protocol this server speaks, not the one it\n                # has just refused)\n", "                # (answer in the protocol this server speaks, not the one it\n                # has just refused)\n"), 'C14.h'),
     ('C18', 'bytes-args-kept-raw', (R, 'circuits/protocols/irc/message.py', "        self.args = [arg if isinstance(arg, str) else arg.decode(self.encoding) for arg in args if arg is not None]", "        self.args = [arg for arg in args if arg is not None]"), 'C18.c'),
     ('C10', 'poll-ignores-nval', (R, POLLERS, "select.POLLHUP | select.POLLERR | select.POLLNVAL", "select.POLLHUP | select.POLLERR"), 'C10.g'),
     ('C16', 'stat-oserror-only', (R, STATIC, "        if not os.path.exists(location):\n            return None\n\n        # Is it a file we can serve directly?\n        if os.path.isfile(location):", "        try:\n            mode = os.stat(location).st_mode\n        except OSError:\n            return None\n\n        # Is it a file we can serve directly?\n        if mode & 0o100000:"), 'C16.f'),
@@ -238,6 +238,9 @@ MUTANTS = [
     ('C13', 'revert-headerless-framing', ('revert', '1f5826a'), 'C13.e'),
     ('C13', 'revert-bodiless-statuses', ('revert', 'bf60f93'), 'C13.e'),
     ('C13', 'revert-stdin-fakesock', ('revert', '9fe97df'), 'C13.f'),
+    ('C15', 'revert-stream-non-iterator', ('revert', '69b1a0a'), 'C15.h'),
+    ('C15', 'revert-505-version', ('revert', '4ef04b4'), 'C15.i'),
+    ('C15', 'revert-400-version', ('revert', '39e6727'), 'C15.i'),
 ]
 
 # behaviour-preserving edits: the check of the property must stay silent
@@ -277,8 +280,8 @@ TWINS = [
     ('C12', 'closeq-suppress', (R, SOCKETS, "        if sock in self._closeq:\n            self._closeq.remove(sock)\n\n        if sock in self._clients:", "        with contextlib.suppress(ValueError):\n            self._closeq.remove(sock)\n\n        if sock in self._clients:"), None),
     ('C13', 'idx-minus-one', (R, PARSER, "                idx = data.find(b'\\r\\n')\n                if idx < 0:\n                    self._buf = [data]", "                idx = data.find(b'\\r\\n')\n                if idx == -1:\n                    self._buf = [data]"), None),
     ('C14', 'disconnect-pop', (R, HTTP, "        if sock in self._clients:\n            del self._clients[sock]\n        if sock in self._buffers:\n            del self._buffers[sock]\n\n    @handler('read')", "        self._clients.pop(sock, None)\n        self._buffers.pop(sock, None)\n\n    @handler('read')"), None),
-    ('C15', 'head-nested', (R, HTTP, "        if req.method == 'HEAD':\n            # no body; but the exchange is over like for any other response\n            if res.close:\n                self.fire(close(sock))\n            if sock in self._clients:\n                del self._clients[sock]\n            res.done = True\n            return\n        if res.stream and res.body:",
-                            "        if req.method == 'HEAD':\n            # no body; but the exchange is over like for any other response\n            if res.close:\n                self.fire(close(sock))\n            if sock in self._clients:\n                del self._clients[sock]\n            res.done = True\n        elif res.stream and res.body:"), None),
+    ('C15', 'head-nested', (R, HTTP, "        if req.method == 'HEAD':\n            # no body; but the exchange is over like for any other response\n            if res.close:\n                self.fire(close(sock))\n            if sock in self._clients:\n                del self._clients[sock]\n            res.done = True\n            return\n        # (the stream flag may be left over from a file body that was replaced\n        # later, e.g. by an error page: only an iterator can be streamed)\n        if res.stream and res.body and hasattr(res.body, '__next__'):",
+                            "        if req.method == 'HEAD':\n            # no body; but the exchange is over like for any other response\n            if res.close:\n                self.fire(close(sock))\n            if sock in self._clients:\n                del self._clients[sock]\n            res.done = True\n        # (the stream flag may be left over from a file body that was replaced\n        # later, e.g. by an error page: only an iterator can be streamed)\n        elif res.stream and res.body and hasattr(res.body, '__next__'):"), None),
     ('C17', 'decoder-gt', (R, WEBSOCKET, "            if payload_length >= 126:", "            if payload_length > 125:"), None),
     ('C18', 'check-order', (R, 'circuits/protocols/irc/message.py', "        self.args = [arg if isinstance(arg, str) else arg.decode(self.encoding) for arg in args if arg is not None]\n        self._check_args()", "        self.args = [arg if isinstance(arg, str) else arg.decode(self.encoding) for arg in args if arg is not None]\n\n        self._check_args()"), None),
     ('C19', 'firewall-positive', (R, NODE_PROTOCOL, "        if self.__receive_event_firewall and not self.__receive_event_firewall(event, self.__sock):\n            self.send_result(id, Value(event, self))\n        else:",
